@@ -378,11 +378,23 @@ protected:
     auto Q=NLME().Hessian();
     if (Q.num_nz_) {
       ++header_.num_nl_objs;                // STATS
-      for (auto i=Q.num_nz_; i--; ) {
-        assert(i<nlv_obj_.size());
-        nlv_obj_[Q.index_[i]] = true;
-        ++header_.num_nl_vars_in_objs;      // STATS
+      auto pos_end = Q.num_nz_;
+      for (auto i=NLME().NumCols(); i--; ) {
+        for (auto pos=Q.start_[i]; pos!=pos_end; ++pos) {
+          MarkNonlinearInObj(i);               // x
+          MarkNonlinearInObj(Q.index_[pos]);   // y
+        }
+        pos_end = Q.start_[i];
       }
+    }
+  }
+
+  /// Mark var \a i as nonlinear in obj, counting it once
+  void MarkNonlinearInObj(int i) {
+    assert(i>=0 && i<(int)nlv_obj_.size());
+    if (!nlv_obj_[i]) {
+      nlv_obj_[i] = true;
+      ++header_.num_nl_vars_in_objs;        // STATS
     }
   }
 
